@@ -533,6 +533,11 @@ def gen_csv_case(rng, hostile_p):
     if wide:
         for k in range(28, 50):
             doc["rewrite"].append({"matcher": {"payee": "^W%02dW" % k}, "account": "Expenses:" + "W" * (k - 9)})
+    if conv and rng.random() < 0.5:
+        # the secondary amount is COMPUTED from the rate (28-digit quotients such as 1041.6666666666666666666666667 are
+        # printed in full): whatever the importer prints must be read back by okane's own parser
+        doc["rewrite"].append({"matcher": {"payee": "(?s).*"},
+                               "conversion": {"amount": "compute", "rate": rng.choice(["price_of_secondary", "price_of_primary"])}})
     rows = []
     n = rng.randint(1, 6)
     style = rng.choice(AMOUNT_STYLES)
@@ -559,7 +564,7 @@ def gen_csv_case(rng, hostile_p):
         row["balance"] = fmt_amount(rng, rng.randint(-10 ** 7, 10 ** 7), scale, style) if rng.random() < 0.8 else ""
         row["commodity"] = gen_commodity(rng, hostile_p / 4)
         row["charge"] = fmt_amount(rng, rng.randint(0, 500), scale, "plain") if rng.random() < 0.5 else ""
-        row["rate"] = rng.choice(["1.5", "110.25", "0.0091", "2"])
+        row["rate"] = rng.choice(["1.5", "110.25", "0.0091", "2", "0.96", "3", "7", "1.1767"])
         row["secondary_amount"] = fmt_amount(rng, rng.randint(1, 10 ** 6), 2, style)
         row["secondary_commodity"] = rng.choice(["EUR", "USD", "JPY", "XAU"])
         rows.append(row)
